@@ -18,6 +18,11 @@ Decided by correspondence ONLY (no model has two execution modes; a fact about X
       interleaved calls, compared with a fresh object.
   (F) deep snapshots of __dict__ graphs of objects used inside other objects, and of every
       mutable default argument of the library.
+  (H) interleaved objects: for every optimiser class x helper (step-size policy / sub-problem
+      solver, incl. the defaults) a solver S1, a second solver S2 with other parameters and data,
+      S1 (and S2) stepped, S1's public state compared after every step with a reference built
+      alone; no mutable object may be shared (`is`) between S1 and S2; histories of
+      constructions / steps of default-policy PGM solvers against SharedDefault.v inside Coq.
 """
 from __future__ import annotations
 
@@ -33,7 +38,7 @@ import numpy as np
 from vf.common import Ctx, Broken, coq_eval_shards, parse_eval_nat_list, qlit, zlit, coq_list, parse_evals
 
 HEADER = """From Coq Require Import List Bool Arith ZArith QArith.
-From SV Require Import C19.Cache C19.TVNorm C19.Loss C19.Random C19.Defaults.
+From SV Require Import C19.Cache C19.TVNorm C19.Loss C19.Random C19.Defaults C19.SharedDefault.
 Import ListNotations.
 Open Scope nat_scope.
 """
@@ -1360,6 +1365,244 @@ def check_solvers(ctx, rng):
 
 
 # =====================================================================================
+# (H) interleaved objects: two live solvers of one class built with default helper objects
+# =====================================================================================
+
+_H_D1 = np.array([[0.5, 1.25, 2.0, 0.75], [1.5, 0.25, 1.0, 1.75], [2.0, 0.5, 1.25, 1.0]])
+
+
+def interleave_catalogue():
+    """name -> mk(v): a NEW solver from NEW data objects; v = 0: the arguments of S1 and of the
+    reference, v = 1: different parameters and data (S2).  Default arguments wherever the
+    constructor has them (step_size, subproblem_solver and its dictionaries, itstat options, maxiter)."""
+    import scico.numpy as snp
+    from scico import linop, functional, loss
+    from scico.function import Function
+    from scico.optimize import ADMM, PGM, AcceleratedPGM, LinearizedADMM, PDHG, ProximalADMM, NonLinearPADMM
+    from scico.optimize.admm import (LinearSubproblemSolver, GenericSubproblemSolver, MatrixSubproblemSolver,
+                                     CircularConvolveSolver)
+    from scico.optimize.pgm import (PGMStepSize, BBStepSize, AdaptiveBBStepSize, LineSearchStepSize,
+                                    RobustLineSearchStepSize)
+    sh = (3, 4)
+
+    def data(v):
+        dd = _H_D1 + (0.5 if v else 0.0)
+        A = linop.Diagonal(snp.array(dd))
+        return {"A": A, "y": snp.array(dd + 0.5 + v), "f": loss.SquaredL2Loss(y=snp.array(dd + 0.5 + v), A=A),
+                "g": (0.5 + 0.25 * v) * functional.L1Norm(),
+                "C": linop.FiniteDifference(sh, input_dtype=np.float64, circular=True),
+                "I": linop.Identity(sh, input_dtype=np.float64),
+                "x0": snp.array(np.full(sh, 0.5 * v))}
+    cat = {}
+    policies = {"default": None, "PGMStepSize": PGMStepSize, "BB": BBStepSize, "AdaptiveBB": AdaptiveBBStepSize,
+                "LineSearch": LineSearchStepSize, "RobustLineSearch": RobustLineSearchStepSize}
+    for cls in (PGM, AcceleratedPGM):
+        for pn, mkp in policies.items():
+            if cls is PGM and pn == "RobustLineSearch":
+                continue
+
+            def mk(v, cls=cls, mkp=mkp):
+                d = data(v)
+                kw = {} if mkp is None else {"step_size": mkp()}
+                return cls(f=d["f"], g=d["g"], L0=[8.0, 20.0][v], x0=d["x0"], **kw)
+            cat[f"{cls.__name__}/{pn}"] = mk
+    solvers = {"default": None, "Generic": GenericSubproblemSolver, "Linear": LinearSubproblemSolver,
+               "Linear-jax": lambda: LinearSubproblemSolver(cg_function="jax"),
+               "Matrix": MatrixSubproblemSolver, "CircularConvolve": CircularConvolveSolver}
+    for sn, mks in solvers.items():
+        def mk(v, sn=sn, mks=mks):
+            d = data(v)
+            f, C, x0 = d["f"], d["C"], d["x0"]
+            if sn == "Matrix":
+                M = _H_D1[:, :3] + (0.5 if v else 0.0)
+                f = loss.SquaredL2Loss(y=snp.array(M[:, 0] + v), A=linop.MatrixOperator(snp.array(M)))
+                C = linop.MatrixOperator(snp.array(np.eye(3)))
+                x0 = snp.array(np.full((3,), 0.5 * v))
+            elif sn == "CircularConvolve":
+                f = loss.SquaredL2Loss(y=d["y"], A=d["I"])
+            kw = {} if mks is None else {"subproblem_solver": mks()}
+            return ADMM(f=f, g_list=[d["g"]], C_list=[C], rho_list=[[1.0], [3.0]][v], x0=x0, **kw)
+        cat[f"ADMM/{sn}"] = mk
+    cat["LinearizedADMM"] = lambda v: (lambda d: LinearizedADMM(
+        f=loss.SquaredL2Loss(y=d["y"], A=d["I"]), g=d["g"], C=d["C"], mu=[0.1, 0.05][v], nu=[0.5, 0.4][v], x0=d["x0"]))(data(v))
+    cat["PDHG"] = lambda v: (lambda d: PDHG(f=d["f"], g=d["g"], C=d["C"], tau=[0.1, 0.05][v], sigma=[0.5, 0.25][v],
+                                            x0=d["x0"]))(data(v))
+    cat["ProximalADMM"] = lambda v: (lambda d: ProximalADMM(
+        f=functional.SquaredL2Norm(), g=d["g"], A=d["C"], rho=[1.0, 2.0][v], mu=[8.0, 16.0][v], nu=[1.0, 0.5][v], x0=d["x0"]))(data(v))
+    cat["NonLinearPADMM"] = lambda v: (lambda d: NonLinearPADMM(
+        f=functional.SquaredL2Norm(), g=d["g"],
+        H=Function((sh, sh), output_shape=sh, eval_fn=lambda a, b: a - b, input_dtypes=np.float64),
+        rho=[1.0, 2.0][v], mu=[4.0, 8.0][v], nu=[4.0, 8.0][v], x0=d["x0"], z0=d["x0"], u0=d["x0"]))(data(v))
+    return cat
+
+
+def _is_numeric(v):
+    import jax
+    from scico.numpy import BlockArray
+    if isinstance(v, bool):
+        return False
+    if isinstance(v, (int, float, complex, np.generic, np.ndarray, jax.Array, BlockArray)):
+        return True
+    if isinstance(v, (list, tuple)) and v and all(_is_numeric(t) for t in v):
+        return True
+    return False
+
+
+def public_state(o):
+    """numeric public attributes of a solver and of its auxiliary policy / sub-problem solver"""
+    st = {}
+
+    def take(prefix, obj):
+        for k, v in vars(obj).items():
+            if k.startswith("_") or k in ("timer", "itstat_object", "maxiter", "nanstop"):
+                continue
+            if _is_numeric(v):
+                st[prefix + k] = v
+    take("", o)
+    for aux in ("step_size", "subproblem_solver"):
+        if hasattr(o, aux):
+            take(aux + ".", getattr(o, aux))
+    return st
+
+
+def mutable_reachable(root, maxdepth=4):
+    """id -> (path, object) of the mutable objects below root (instances with __dict__, dict, list, set)"""
+    import jax
+    from scico.numpy import BlockArray
+    out, seen = {}, set()
+
+    def go(o, path, depth):
+        if o is None or isinstance(o, (bool, int, float, complex, str, bytes, type, np.dtype, np.generic,
+                                       np.ndarray, jax.Array, BlockArray)):
+            return
+        if inspect.ismodule(o) or inspect.isroutine(o) or inspect.isclass(o) or type(o).__name__ in ("PjitFunction", "partial"):
+            return
+        if id(o) in seen:
+            return
+        seen.add(id(o))
+        if isinstance(o, tuple):
+            kids = [(f"{path}[{i}]", t) for i, t in enumerate(o)]
+        elif isinstance(o, (list,)):
+            out[id(o)] = (path, o)
+            kids = [(f"{path}[{i}]", t) for i, t in enumerate(o)]
+        elif isinstance(o, dict):
+            out[id(o)] = (path, o)
+            kids = [(f"{path}[{k!r}]", t) for k, t in o.items()]
+        elif isinstance(o, (set, frozenset)):
+            if isinstance(o, set):
+                out[id(o)] = (path, o)
+            kids = []
+        elif hasattr(o, "__dict__"):
+            out[id(o)] = (path, o)
+            kids = [(f"{path}.{k}", t) for k, t in vars(o).items()]
+        else:
+            kids = []
+        if depth < maxdepth:
+            for p, t in kids:
+                go(t, p, depth + 1)
+    go(root, "", 0)
+    return out
+
+
+def run_interleaved_config(ctx, name, mk, variant, k):
+    """reference alone; then S1, S2 (variant: 0 = S2 only constructed, 1 = S2 stepped once before and
+    between the steps of S1).  Returns nothing; reports violations."""
+    tol = 1e-7 if ("Generic" in name or name == "ADMM/default") else 1e-12   # scipy BFGS termination decided by rounding
+    ref = mk(0)
+    ref_states = [public_state(ref)]
+    for _ in range(k):
+        ref.step()
+        ref_states.append(public_state(ref))
+    s1 = mk(0)
+    s2 = mk(1)
+    inp = {"config": name, "variant": variant, "steps": k}
+    # identity: nothing mutable may be shared between two independently built solvers
+    m1, m2 = mutable_reachable(s1), mutable_reachable(s2)
+    shared = sorted((m1[i][0], m2[i][0], type(m1[i][1]).__name__) for i in m1 if i in m2)
+    outer = [t for t in shared if not any(t[0] != u[0] and t[0].startswith(u[0]) for u in shared)]
+    ctx.count("interleaved-identity", {"config": name})
+    for p1, p2, tn in outer:
+        ctx.violation("shared-helper-object", "two independently constructed solvers hold the SAME mutable helper object "
+                      "(a shared default)", {"config": name, "path": p1, "path_in_second": p2, "type": tn},
+                      expected="a new object per constructor call", observed=f"S1{p1} is S2{p2} ({tn})",
+                      oracle="SharedDefault.v percall_no_interference / identity check")
+    if variant:
+        s2.step()
+    states = [public_state(s1)]
+    for _ in range(k):
+        s1.step()
+        states.append(public_state(s1))
+        if variant:
+            s2.step()
+    for j, (a, b) in enumerate(zip(states, ref_states)):
+        ctx.count("interleaved-state", {"config": name, "variant": variant, "step": j})
+        for key in sorted(set(a) | set(b)):
+            if key not in a or key not in b:
+                ok, why = False, "attribute present in only one of the two solvers"
+            else:
+                ok, why = close(a[key], b[key], tol)
+            if not ok:
+                ctx.violation("interleaved:" + name,
+                              "state of a solver differs from a reference solver built alone with the same arguments "
+                              "after a second solver of the same class was constructed"
+                              + (" and stepped" if variant else ""),
+                              dict(inp, attribute=key, after_steps=j), expected=str(np.asarray(blocks_of(b.get(key, 0.0))[0]).ravel()[:4]),
+                              observed=why + " " + str(np.asarray(blocks_of(a.get(key, 0.0))[0]).ravel()[:4]),
+                              oracle="fresh reference solver built alone")
+                return
+
+
+def check_interleaved(ctx, rng):
+    cat = interleave_catalogue()
+    k = ctx.n(2, 3)
+    for name in sorted(cat):
+        for variant in ((rng.randrange(2),) if ctx.quick else (0, 1)):
+            r = outcome(lambda: run_interleaved_config(ctx, name, cat[name], variant, k))
+            if r[0] == "exc":
+                ctx.obligation(False, f"interleaved-objects scenario {name} could not be executed", r[1])
+    # SharedDefault.v against PGM with default step-size policies: histories of constructions / steps
+    items, meta = [], []
+    for _ in range(ctx.n(4, 30)):
+        ops, n = [], 0
+        for _ in range(rng.randint(3, 6)):
+            if n == 0 or rng.random() < 0.45:
+                ops.append([0, rng.choice([4, 8, 16, 20, 32, 64])]); n += 1
+            else:
+                ops.append([1, rng.randrange(n)])
+        case = {"class": rng.choice(["PGM", "AcceleratedPGM"]), "ops": ops}
+        obs = run_sd_impl(case)
+        ctx.count("default-policy-history", case)
+        items.append("(" + coq_list([f"({c}, {zl(v)})" for c, v in ops]) + ", " + coq_list([zl(v) for v in obs]) + ")")
+        meta.append((case, obs))
+    body = "Definition cases := " + coq_list(items, ";\n ") + ".\nEval vm_compute in (TVNorm.bad_idx sd_case_ok cases 0%nat)."
+    for idx in parse_eval_nat_list(coq_eval_shards("C19_sd", HEADER, [body])[0]):
+        case, obs = meta[idx]
+        ctx.violation("default-step-size-policy", "L of solvers built with the default step-size policy after a history of "
+                      "constructions and steps differs from the per-call-default model",
+                      case, expected="SharedDefault.v run PerCall (every solver keeps its own L0)", observed=obs,
+                      oracle="sd_case_ok")
+
+
+def run_sd_impl(case):
+    import scico.numpy as snp
+    from scico import linop, functional, loss
+    import scico.optimize as so
+    cls = getattr(so, case["class"])
+    objs = []
+    for code, v in case["ops"]:
+        if code == 0:
+            A = linop.Diagonal(snp.array(_H_D1))
+            objs.append(cls(f=loss.SquaredL2Loss(y=snp.array(_H_D1 + 0.5), A=A), g=0.5 * functional.L1Norm(),
+                            L0=float(v), x0=snp.zeros((3, 4), dtype=np.float64)))
+        else:
+            objs[v].step()
+    Ls = [float(o.L) for o in objs]
+    if any(x != int(x) for x in Ls):
+        raise Broken("PGM.L is not the integer L0 it was built with", str(Ls))
+    return [int(x) for x in Ls]
+
+
+# =====================================================================================
 # run / replay
 # =====================================================================================
 
@@ -1565,6 +1808,8 @@ def run(ctx: Ctx):
     mark("F-snapshots")
     check_solvers(ctx, rng)
     mark("G-solvers")
+    check_interleaved(ctx, rng)
+    mark("H-interleaved")
     ctx.notes.append("wall seconds per stream: " + ", ".join(f"{b[0]} {b[1] - a[1]:.1f}" for a, b in zip(marks, marks[1:])))
 
     # shared mutable defaults of the whole library are what they were at the start
@@ -1593,6 +1838,17 @@ def replay(ctx: Ctx, rec):
         c2.known = []
         check_solvers(c2, c2.rng)
         return not any(v["unit"] == "PGM.step" for v in c2.violations)
+    if unit.startswith("interleaved:") or unit == "shared-helper-object":
+        c2 = Ctx(ctx.pid, ctx.tier, ctx.seed)
+        c2.known = []
+        cat = interleave_catalogue()
+        run_interleaved_config(c2, c["config"], cat[c["config"]], c.get("variant", 0), c.get("steps", 2))
+        return not any(v["unit"] == unit for v in c2.violations)
+    if unit == "default-step-size-policy":
+        obs = run_sd_impl(c)
+        body = ("Definition cases := [(" + coq_list([f"({a}, {zl(v)})" for a, v in c["ops"]]) + ", "
+                + coq_list([zl(v) for v in obs]) + ")].\nEval vm_compute in (TVNorm.bad_idx sd_case_ok cases 0%nat).")
+        return parse_eval_nat_list(coq_eval_shards("C19_replay", HEADER, [body])[0]) == []
     if unit == "Loss.rescale":
         obs = run_loss_impl(c)
         body = ("Definition cases := [" + coq_loss_case(c, obs) + "].\n"
